@@ -193,11 +193,14 @@ func c50RunExpect(c, expect c50Case, dir string, report func(sig, msg string)) (
 		return "rejected-missing-timestamp"
 	}
 
-	if err != nil {
-		// An input whose lines of one series are not in timestamp order is not valid OpenMetrics;
-		// it may be rejected when the disorder falls inside one block window.
+	// An input whose lines of one series are not in timestamp order is not valid OpenMetrics
+	// ("MetricPoints MUST have monotonically increasing timestamps"), so the statement does not
+	// cover it. When the disorder falls inside one block window the tool may reject the input or
+	// drop the late lines; the blocks it does write must still be aligned and contain nothing but
+	// input samples.
+	disorder := false
+	{
 		last := map[int]int64{}
-		disorder := false
 		for _, i := range order {
 			l := ls[i]
 			t := c50TS[l.tsIdx]
@@ -208,6 +211,8 @@ func c50RunExpect(c, expect c50Case, dir string, report func(sig, msg string)) (
 				last[l.series] = t
 			}
 		}
+	}
+	if err != nil {
 		if disorder {
 			return "rejected-unordered-series"
 		}
@@ -288,7 +293,7 @@ func c50RunExpect(c, expect c50Case, dir string, report func(sig, msg string)) (
 		return ks[i].series < ks[j].series
 	})
 	for _, k := range ks {
-		if got[k] > 0 {
+		if got[k] > 0 || disorder {
 			continue
 		}
 		if k.t < c50TruncStart(minT, d) {
@@ -300,6 +305,9 @@ func c50RunExpect(c, expect c50Case, dir string, report func(sig, msg string)) (
 		}
 	}
 	sort.Strings(layout)
+	if disorder {
+		return fmt.Sprintf("ok-unordered-series d=%dh %v", d/3600000, layout)
+	}
 	return fmt.Sprintf("ok d=%dh %v", d/3600000, layout)
 }
 
@@ -322,9 +330,12 @@ func c50Subsets(alpha []int) [][]int {
 	return out
 }
 
+// c50Cases builds the case list. One block costs tens of milliseconds (the index writer allocates
+// several large buffers per block), so the families are sized by measured cost: about 500 cases in
+// the quick tier, about 5500 in the thorough tier.
 func c50Cases(r *vx.Run) (cases []c50Case, desc []string) {
-	all := []int{0, 1, 2, 3, 4, 5, 6}
-	durs := []int64{c50R, 2 * c50R, 3 * c50R}
+	all := []int{0, 1, 2, 3, 4, 5, 6} // indices into c50TS
+	th := r.Thorough()
 	add := func(c c50Case) {
 		if c.MaxSamples == 0 {
 			c.MaxSamples = 5000
@@ -334,19 +345,33 @@ func c50Cases(r *vx.Run) (cases []c50Case, desc []string) {
 	note := func(format string, a ...any) {
 		desc = append(desc, fmt.Sprintf(format, a...)+fmt.Sprintf(" (cases so far %d)", len(cases)))
 	}
-	// E1: one series, every subset of the 7 timestamps, all durations, 5000 and 1 samples per appender
+	tsOf := func(idx []int) []int64 {
+		var o []int64
+		for _, i := range idx {
+			o = append(o, c50TS[i])
+		}
+		return o
+	}
+	// E1: one series, every subset of the 7 timestamps
 	for _, s := range c50Subsets(all) {
-		for _, d := range durs {
-			for _, ms := range []int{5000, 1} {
-				add(c50Case{Series: [][]int{s}, MaxDur: d, MaxSamples: ms, MissingTS: -1})
-			}
+		add(c50Case{Series: [][]int{s}, MaxDur: c50R, MissingTS: -1})
+		if th || len(s) <= 2 {
+			add(c50Case{Series: [][]int{s}, MaxDur: c50R, MaxSamples: 1, MissingTS: -1})
+			add(c50Case{Series: [][]int{s}, MaxDur: 2 * c50R, MissingTS: -1})
+			add(c50Case{Series: [][]int{s}, MaxDur: 3 * c50R, MissingTS: -1})
+		}
+		if th {
+			add(c50Case{Series: [][]int{s}, MaxDur: 3 * c50R, MaxSamples: 1, MissingTS: -1})
 		}
 	}
-	note("E1 one series x all 128 subsets x durations R,2R,3R x 5000/1 samples per appender")
-	// E2: one series, subsets of size 2..3, every non-identity line order
+	note("E1 one series x all 128 subsets of the 7 timestamps at max-block-duration R; subsets of size <=2 (thorough: all) also with 1 sample per appender and max-block-duration 2R, 3R")
+	// E2: one series, every non-identity line order
 	for _, s := range c50Subsets(all) {
 		if len(s) < 2 || len(s) > 3 {
 			continue
+		}
+		if !th && len(s) == 3 && (s[0] < 1 || s[2] > 4) {
+			continue // quick: size-3 subsets only over {-1,0,R-1,R}
 		}
 		vx.Perms(len(s), func(p []int) bool {
 			ident := true
@@ -356,23 +381,22 @@ func c50Cases(r *vx.Run) (cases []c50Case, desc []string) {
 				}
 			}
 			if !ident {
-				for _, d := range []int64{c50R, 3 * c50R} {
-					add(c50Case{Series: [][]int{s}, Order: append([]int(nil), p...), MaxDur: d, MissingTS: -1})
+				add(c50Case{Series: [][]int{s}, Order: append([]int(nil), p...), MaxDur: c50R, MissingTS: -1})
+				if th {
+					add(c50Case{Series: [][]int{s}, Order: append([]int(nil), p...), MaxDur: 3 * c50R, MissingTS: -1})
 				}
 			}
 			return true
 		})
 	}
-	note("E2 one series x subsets of size 2,3 x every other line order x durations R,3R")
-	// E3: two series, subsets of a timestamp alphabet, series-major and interleaved line order
-	a2 := vx.Pick(r, []int{1, 2, 3, 4}, []int{0, 1, 2, 3, 4, 6})
-	for _, s1 := range c50Subsets(a2) {
-		for _, s2 := range c50Subsets(a2) {
-			for _, d := range []int64{c50R, 3 * c50R} {
-				add(c50Case{Series: [][]int{s1, s2}, MaxDur: d, MissingTS: -1})
+	note("E2 one series x subsets of size 2 and 3 (quick: size 3 only over {-1,0,R-1,R}) x every other line order (thorough: also at 3R)")
+	// E3: two series, series-major and interleaved line order
+	two := func(alpha []int, dur int64) {
+		for _, s1 := range c50Subsets(alpha) {
+			for _, s2 := range c50Subsets(alpha) {
+				add(c50Case{Series: [][]int{s1, s2}, MaxDur: dur, MissingTS: -1})
 				if len(s1) > 0 && len(s2) > 0 && len(s1)+len(s2) > 2 {
-					// round-robin interleaving of the two series' lines
-					var o []int
+					var o []int // round-robin interleaving of the two series' lines
 					for i := 0; i < len(s1) || i < len(s2); i++ {
 						if i < len(s2) {
 							o = append(o, len(s1)+i)
@@ -381,26 +405,30 @@ func c50Cases(r *vx.Run) (cases []c50Case, desc []string) {
 							o = append(o, i)
 						}
 					}
-					add(c50Case{Series: [][]int{s1, s2}, Order: o, MaxDur: d, MissingTS: -1})
+					add(c50Case{Series: [][]int{s1, s2}, Order: o, MaxDur: dur, MissingTS: -1})
 				}
 			}
 		}
+		note("E3 two series x subsets of %v each at max-block-duration %dh, series-major and interleaved", tsOf(alpha), dur/3600000)
 	}
-	note("E3 two series x subsets of timestamps %v each x durations R,3R x series-major and interleaved order", a2)
+	if th {
+		two([]int{0, 1, 2, 3, 4}, c50R)
+		two([]int{1, 2, 4, 6}, 3*c50R)
+	} else {
+		two([]int{1, 2, 4}, c50R)
+	}
 	// E4: three series
-	a3 := vx.Pick(r, []int{1, 2, 4}, []int{0, 1, 2, 4})
+	a3 := vx.Pick(r, []int{1, 4}, []int{1, 2, 4})
 	for _, s1 := range c50Subsets(a3) {
 		for _, s2 := range c50Subsets(a3) {
 			for _, s3 := range c50Subsets(a3) {
-				for _, d := range vx.Pick(r, []int64{c50R}, []int64{c50R, 3 * c50R}) {
-					add(c50Case{Series: [][]int{s1, s2, s3}, MaxDur: d, MissingTS: -1})
-				}
+				add(c50Case{Series: [][]int{s1, s2, s3}, MaxDur: c50R, MissingTS: -1})
 			}
 		}
 	}
-	note("E4 three series x subsets of timestamps %v each", a3)
-	// E5: two series over {-1,0,R}, total <= 4 lines, every line order
-	a5 := []int{1, 2, 4}
+	note("E4 three series x subsets of %v each", tsOf(a3))
+	// E5: two series, 2..4 lines, every line order
+	a5 := vx.Pick(r, []int{2, 4}, []int{1, 2, 4})
 	for _, s1 := range c50Subsets(a5) {
 		for _, s2 := range c50Subsets(a5) {
 			n := len(s1) + len(s2)
@@ -413,18 +441,18 @@ func c50Cases(r *vx.Run) (cases []c50Case, desc []string) {
 			})
 		}
 	}
-	note("E5 two series over timestamps %v, 2..4 lines, every line order", a5)
-	// E6: a missing timestamp on each line in turn
-	a6 := []int{1, 2, 4, 6}
+	note("E5 two series over %v, 2..4 lines in total, every line order", tsOf(a5))
+	// E6: each line in turn without timestamp
+	a6 := vx.Pick(r, []int{1, 2, 4}, []int{1, 2, 4, 6})
 	for _, s1 := range c50Subsets(a6) {
-		for _, s2 := range c50Subsets([]int{2, 4}) {
+		for _, s2 := range c50Subsets([]int{2, 4})[:vx.Pick(r, 2, 4)] {
 			n := len(s1) + len(s2)
 			for miss := 0; miss < n; miss++ {
 				add(c50Case{Series: [][]int{s1, s2}, MaxDur: c50R, MissingTS: miss})
 			}
 		}
 	}
-	note("E6 two series, each line in turn without timestamp")
+	note("E6 two series (first over %v), each line in turn printed without timestamp", tsOf(a6))
 	return cases, desc
 }
 
@@ -503,7 +531,7 @@ func TestVerifC50(t *testing.T) {
 	r.Set("rule", "every generated OpenMetrics input is backfilled into a fresh directory, the produced blocks are opened read-only and every block is read back completely; distinct_nontrivial = distinct (series timestamp sets, block layout) of accepted inputs that produced at least one block; families: "+strings.Join(desc, "; "))
 	r.Set("timestamps_ms", c50TS)
 	r.Assume("the chosen block duration is the largest step of the ladder 2h x 3^k not exceeding --max-block-duration (at least 2h)")
-	r.Assume("an input in which the lines of one series are not in timestamp order (invalid OpenMetrics) may be rejected when the disorder falls inside one block window; otherwise it must be backfilled exactly")
+	r.Assume("an input in which the lines of one series are not in timestamp order is invalid OpenMetrics: when the disorder falls inside one block window the tool may reject it or drop the late lines (observed: dropped silently when both lines are in one appender batch), only alignment and 'nothing but input samples' are checked; disorder across windows must be backfilled exactly")
 	if !r.Expired() && r.Violations() == 0 {
 		if r.Get("outcome_ok") == 0 || r.Get("outcome_rejected-missing-timestamp") == 0 {
 			t.Fatal("vacuous run: no accepted or no rejected input")
